@@ -218,8 +218,19 @@ def main(argv=None):
                 kf_functions.add(it.label)
                 continue
             lost = it.notes is not None and it.notes.counts.get('LOST-ANCHOR', 0) > 0
-            if lost and (os.environ.get('VERIF_LOST_BROAD') or d.kind in ('assert', 'loop-invariant', 'loop-invariant-end', 'loop-invariant-entry', 'decreases')):
-                undecided.append('unit %s: %s fails a proof-internal obligation after a proof hint lost its anchor (code shape changed): %s' % (uname, it.label, oid))
+            lost_details = [x for x in (it.notes.details if it.notes else []) if x.startswith('LOST-ANCHOR')]
+            lost_hard = any(not x.rstrip().endswith('[plain]') for x in lost_details)
+            if lost_hard:
+                # a proof hint, a closure contract or a contract-carrying rewrite of this function no longer finds the code it
+                # was written for: what Verus was given is then not the contract as designed (a closure without its contract, a
+                # gate without its introduction rule, an invariant without its hint), so NO failure of this function is
+                # reported as a violation - a behaviour-preserving edit looks exactly the same (harmless change H/h5).
+                undecided.append('unit %s: %s fails an obligation after a proof hint / closure contract lost its anchor (code shape changed): %s' % (uname, it.label, oid))
+                continue
+            if lost and d.kind in ('assert', 'loop-invariant', 'loop-invariant-end', 'loop-invariant-entry', 'decreases'):
+                # only plain lowering rewrites lost their site (the construct they lowered is gone or changed; the code reaches
+                # Verus as written): function-level obligations are still trusted, proof-internal ones are not
+                undecided.append('unit %s: %s fails a proof-internal obligation after a rewrite lost its site (code shape changed): %s' % (uname, it.label, oid))
                 continue
             if oid not in violations:
                 sp = d.primary()
